@@ -105,6 +105,9 @@ func execPlan(p *Plan) (*oneOut, error) {
 	defer os.Remove(of)
 	cmd := exec.Command(self, "-test.run=^TestOne$", "-test.timeout=150s")
 	cmd.Env = append(os.Environ(), "LIVESIM_MODE=one", "LIVESIM_CASE="+f.Name(), "LIVESIM_OUT="+of, "GOMAXPROCS=1")
+	if p.Traceback != "" {
+		cmd.Env = append(cmd.Env, "GOTRACEBACK="+p.Traceback)
+	}
 	ob, err := cmd.CombinedOutput()
 	b, rerr := os.ReadFile(of)
 	if rerr != nil {
@@ -186,14 +189,14 @@ func hasClause(fs []Finding, clause string) bool {
 // shrinkPlan drops steps while the same clause keeps failing; every candidate
 // runs in a fresh process, like the original.
 func shrinkPlan(p *Plan, clause string) *Plan {
-	cur := &Plan{Seed: p.Seed, Run: p.Run, BurnIDs: p.BurnIDs, Steps: append([]Step(nil), p.Steps...)}
+	cur := &Plan{Seed: p.Seed, Run: p.Run, BurnIDs: p.BurnIDs, Traceback: p.Traceback, Steps: append([]Step(nil), p.Steps...)}
 	if clause == "C20.no-answer" {
 		return cur // every candidate would cost the full timeout
 	}
 	evals := 0
 	for chunk := len(cur.Steps) / 2; chunk >= 1; chunk /= 2 {
 		for i := 0; i+chunk <= len(cur.Steps) && evals < 40; {
-			cand := &Plan{Seed: p.Seed, Run: p.Run, BurnIDs: p.BurnIDs}
+			cand := &Plan{Seed: p.Seed, Run: p.Run, BurnIDs: p.BurnIDs, Traceback: p.Traceback}
 			cand.Steps = append(append([]Step{}, cur.Steps[:i]...), cur.Steps[i+chunk:]...)
 			o, err := execPlan(cand)
 			evals++
